@@ -51,6 +51,7 @@ func (l *Lexer) skipAction() bool {
 			}
 		case '\n':
 			l.line++
+			l.lineOffset = l.offset + 1
 		}
 
 		// Scan the next character.
@@ -67,6 +68,11 @@ func (l *Lexer) skipAction() bool {
 			l.ch = r
 			if skipNext {
 				skipNext = false
+				if r == '\n' {
+					// An escaped newline is still a newline.
+					l.line++
+					l.lineOffset = l.scanOffset
+				}
 				goto next
 			}
 		} else {
